@@ -1,6 +1,6 @@
 """Core of the static rule library: fact loading, CFG, dominance, control dependence,
 provenance.  Works on the JSON emitted by tools/mirfacts (type-checked MIR of /repo)."""
-import json, os, re, sys, hashlib, subprocess, fcntl, glob, shutil, time, tempfile
+import time, json, os, re, sys, hashlib, subprocess, fcntl, glob, shutil, time, tempfile
 from collections import defaultdict, deque
 
 REPO = os.environ.get('VERIF_REPO', '/repo')
@@ -102,11 +102,14 @@ def _finish(procs):
         shutil.rmtree(tmp, ignore_errors=True)
 
 def _gc_cache(keep):
+    """drop fact caches of other trees, but never one that another running check may still be reading: only
+    directories untouched for two hours, and always keep the eight most recent"""
     try:
+        now = time.time()
         ds = [d for d in os.listdir(CACHE) if os.path.isdir(os.path.join(CACHE, d))]
         ds.sort(key=lambda d: os.path.getmtime(os.path.join(CACHE, d)))
-        for d in ds[:-3]:
-            if d != keep:
+        for d in ds[:-8]:
+            if d != keep and now - os.path.getmtime(os.path.join(CACHE, d)) > 7200:
                 shutil.rmtree(os.path.join(CACHE, d), ignore_errors=True)
     except OSError:
         pass
